@@ -659,6 +659,11 @@ impl Monitor {
                     0x16 => "/report-v2",
                     _ => "/leave",
                 });
+                // RFC 2236 §2.2: in reports and leave messages the max response time "is set to zero
+                // by the sender"
+                if m[1] != 0 {
+                    out.add("reserved", "igmp", "max-resp-time-nonzero", format!("IGMP type {:#04x} carries max response time {:#04x} instead of zero", m[0], m[1]));
+                }
                 if m.len() != 8 {
                     out.add("length", "igmp", "message-size", format!("IGMPv1/v2 message type {:#04x} of {} octets (must be 8)", m[0], m.len()));
                 }
@@ -855,6 +860,18 @@ impl Monitor {
         }
         if o != m.len() {
             out.add("length", "dns", "sections-inconsistent-with-message-length", format!("sections end at offset {} but the message has {} octets", o, m.len()));
+        }
+        // RFC 1035 §4.1.1: Z "must be zero in all queries and responses"; opcodes 3 and 6..15 are
+        // unassigned; RCODE is "set as part of responses"
+        if m[3] & 0x40 != 0 {
+            out.add("reserved", "dns", "z-bit-set", format!("flags word {:02x}{:02x}: reserved Z bit set", m[2], m[3]));
+        }
+        let opcode = (m[2] >> 3) & 0xf;
+        if !matches!(opcode, 0 | 1 | 2 | 4 | 5) {
+            out.add("protocol", "dns", "unassigned-opcode", format!("flags word {:02x}{:02x}: opcode {}", m[2], m[3], opcode));
+        }
+        if m[2] & 0x80 == 0 && m[3] & 0x0f != 0 {
+            out.add("reserved", "dns", "rcode-in-query", format!("flags word {:02x}{:02x}: query with response code {}", m[2], m[3], m[3] & 0xf));
         }
         if m[2] & 0x80 == 0 {
             v.class.push_str("-query");
@@ -1147,6 +1164,10 @@ impl Monitor {
         if fcf & (1 << 3) != 0 {
             v.undecodable = Some("802.15.4 security enabled".into());
             return;
+        }
+        // frame control bits 7..9 are reserved in IEEE 802.15.4-2003/2006 (frame version 0 / 1)
+        if (fcf >> 12) & 3 < 2 && fcf & 0x0380 != 0 {
+            out.add("reserved", "ieee802154", "frame-control-reserved-bits", format!("frame control {:#06x}: reserved bits 7..9 set in a version {} frame", fcf, (fcf >> 12) & 3));
         }
         let comp = fcf & (1 << 6) != 0;
         let dam = (fcf >> 10) & 3;
